@@ -60,4 +60,16 @@ theorem cc_table_no_crash : ∀ c ∈ ccTable, ∀ b : Byte, ∃ res, ccByte (cf
   · simp at h
   · exact ⟨_, by assumption⟩
 
+/-- **editing / terminator bytes**: the model's `telnetNeg` erases the previous character for exactly the bytes the real
+    telnet_neg does (`tnEditBytes`, read off the real function for all 255 non-NUL byte values: in the middle of a line
+    and at its start) and copies every other byte; `addConsoleLine`'s conversion turns exactly `consoleNulBytes` into the
+    command terminator -/
+theorem edit_bytes_tie :
+    (List.range 256).all (fun n => n == 0 ||
+      (telnetNeg [97, 98, u8 n, 99] == (if tnEditBytes.contains n then [97, 99] else [97, 98, u8 n, 99]) &&
+       telnetNeg [u8 n, 99] == (if tnEditBytes.contains n then [99] else [u8 n, 99]) &&
+       (match addConsoleLine (S.init .console) [97, u8 n, 99] with
+        | .ok s' => s'.text.take 3 == [97, if consoleNulBytes.contains n then 0 else u8 n, 99]
+        | .error _ => false))) = true := by decide +kernel
+
 end NV.C13
